@@ -15,7 +15,8 @@ def eprint(*a):
 # registry of trait emitters
 def emitters():
     from . import t_eq
-    reg = {"PartialEq": t_eq}
+    from . import t_union
+    reg = {"PartialEq": t_eq, "__union__": t_union}
     for name, mod in (("Ord", "t_ord"), ("PartialOrd", "t_ord"), ("Hash", "t_hash"), ("Clone", "t_clone"),
                       ("Default", "t_default"), ("Deref", "t_deref"), ("DerefMut", "t_deref"),
                       ("Into", "t_into"), ("Debug", "t_debug")):
@@ -51,6 +52,8 @@ class Job:
             done = set()
             for tr in sorted(P.focus):
                 mod = self.reg.get(tr)
+                if P.kind == "union" and tr in ("PartialEq", "Hash", "Clone"):
+                    mod = self.reg["__union__"]
                 if mod is None or mod in done:
                     continue
                 done.add(mod)
